@@ -155,6 +155,7 @@ func c03Alphabet(pktIDs []uint16, counts, ids []uint8, datas []string) [][]byte 
 
 func c03Enumerate(sh *evidence.Shard) {
 	r := c03lib.NewRunner(sh, c03Unit, c03Exec)
+	defer r.Close()
 	th := r.Thorough()
 
 	// --- FragUDPMessage ----------------------------------------------------------------------
@@ -168,21 +169,11 @@ func c03Enumerate(sh *evidence.Shard) {
 	} else {
 		pays = []int{0, 1, 2, 3, 254, 255, 256, 257, 258, 509, 510, 511, 512, 513, 764, 765, 766, 767, 768, 1023, 1024, 1025, 2047, 2048, 4079, 4080, 4081, 4095, 4096, 4097, 65535}
 	}
-	p := r.Part("FragUDPMessage/limits", map[string]any{"limit": "-1,0,1..40, hdr+{-1,0,1,2,3,4,8,15,16,17,32}, 1100..1200, 1452, 65535 (hdr = header size for the address length)",
+	p := r.Part("FragUDPMessage/limits", map[string]any{"limit": c03lib.DatagramLimitsDoc,
 		"addr_len": addrLens, "payload_len": fmt.Sprintf("%d values: %v..", len(pays), pays[:min(len(pays), 12)])}, nil)
 	for _, al := range addrLens {
 		hdr := 8 + len(c03lib.VarintMin(uint64(al))) + al
-		limits := []int{-1, 0}
-		for i := 1; i <= 40; i++ {
-			limits = append(limits, i)
-		}
-		for _, d := range []int{-1, 0, 1, 2, 3, 4, 8, 15, 16, 17, 32} {
-			limits = append(limits, hdr+d)
-		}
-		for i := 1100; i <= 1200; i++ {
-			limits = append(limits, i)
-		}
-		limits = append(limits, 1452, 65535)
+		limits := c03lib.DatagramLimits(hdr, th)
 		for _, lim := range limits {
 			for _, pl := range pays {
 				r.Do(p, func() *c03lib.Case {
@@ -200,8 +191,12 @@ func c03Enumerate(sh *evidence.Shard) {
 		desc  map[string]any
 	}
 	var cfgs []cfg
-	small := c03Alphabet([]uint16{0, 1}, []uint8{0, 1, 2, 3, 255}, []uint8{0, 1, 2, 254, 255}, []string{"x", "yz"})
-	cfgs = append(cfgs, cfg{"Defragger.Feed/seq3", small, 3, map[string]any{"packet_id": []int{0, 1}, "frag_count": []int{0, 1, 2, 3, 255}, "frag_id": []int{0, 1, 2, 254, 255}, "data_len": []int{1, 2}, "messages": len(small), "max_depth": 3}})
+	datas := []string{"x"}
+	if th {
+		datas = []string{"x", "yz"}
+	}
+	small := c03Alphabet([]uint16{0, 1}, []uint8{0, 1, 2, 3, 255}, []uint8{0, 1, 2, 254, 255}, datas)
+	cfgs = append(cfgs, cfg{"Defragger.Feed/seq3", small, 3, map[string]any{"packet_id": []int{0, 1}, "frag_count": []int{0, 1, 2, 3, 255}, "frag_id": []int{0, 1, 2, 254, 255}, "data_len": "1 (thorough: 1, 2)", "messages": len(small), "max_depth": 3}})
 	if th {
 		big := c03Alphabet([]uint16{0, 1, 65535}, []uint8{0, 1, 2, 3, 254, 255}, []uint8{0, 1, 2, 3, 253, 254, 255}, []string{"x", "yz"})
 		cfgs = append(cfgs, cfg{"Defragger.Feed/seq3-wide", big, 3, map[string]any{"packet_id": []int{0, 1, 65535}, "frag_count": []int{0, 1, 2, 3, 254, 255}, "frag_id": []int{0, 1, 2, 3, 253, 254, 255}, "data_len": []int{1, 2}, "messages": len(big), "max_depth": 3}})
